@@ -30,25 +30,31 @@ LEAN_PROPS = "PpciVerif/Props/C17.lean"
 LEAN_TARGETS = ["PpciVerif.Props.C17", "Drivers.C17"]
 LEVEL = "proof"
 LEVEL_TEXT = (
-    "Lean theorems about an executable model of ElfWriter.export_object (ET_REL and ET_EXEC, 32/64 bit, both byte orders) and a gABI reader "
-    "Spec.Elf written independently of the code, for ALL objects (no bound on the number or size of sections, symbols, relocations, images): "
-    "every header record (ELF header, program header, section header, symbol, RELA entry) is read back field by field by the gABI reader "
-    "whenever the writer's struct packing succeeds; the string table returns every name ever entered, also after later insertions; the symbol "
-    "table lists all locals before all globals, is a permutation of the object's symbols and sh_info is the index of the first non-local; "
-    "st_info and r_info split back into binding/type and symbol/type; every chunk the writer emits (image data, section data, symbol table, RELA "
-    "tables, string table, section header table) is found unchanged at the file offset recorded in its header, offsets respect the requested "
-    "alignment, and each PT_LOAD segment has p_offset = p_vaddr (mod 4096), p_filesz = p_memsz = len(Image.data) and holds exactly Image.data; "
-    "the reader applied to the written file returns the class / byte order / type / machine / entry point of the object. The field layouts of "
-    "the model are the `_fields` dumped from the live header classes on every run and proved (decide) equal to the gABI layouts. The hand model is "
-    "tied to the source by a byte-for-byte differential run against write_elf on real compiled / linked objects of all five machines."
+    "Lean theorems about an executable model of ElfWriter.export_object (ET_REL and ET_EXEC, 32/64 bit, both byte orders) and an ELF reader "
+    "Spec.Elf written from the gABI independently of the code, for ALL objects (no bound on the number or size of sections, symbols, "
+    "relocations, images), under the sole hypothesis that the writer returned a file: (1) the reader applied to the written file returns the "
+    "class and byte order of the machine, e_type, e_machine and, for executables, the value of the entry symbol as e_entry; (2) for every "
+    "executable the reader finds exactly one PT_LOAD segment per memory image, in order, with p_vaddr = p_paddr = Image.address, p_filesz = "
+    "p_memsz = len(Image.data), p_align = 4096, p_offset = p_vaddr (mod 4096) and the segment's file bytes equal to Image.data, and a loader "
+    "that maps whole file pages sees Image.data[i] at Image.address+i; (3) building blocks proved at full generality: every header record "
+    "(ELF header, program header, section header, symbol, RELA entry, also as tables) is read back field by field by the gABI record reader, "
+    "signed addends in two's complement; the string table returns every name ever entered also after later insertions; the symbol table is a "
+    "permutation of the object's symbols with all locals before all globals (sh_info = #locals+1); st_info and r_info split back; align_to "
+    "reaches a multiple of the alignment with zero padding; every writer step only appends, so a chunk once written stays at its offset in the "
+    "final file. The field layouts used by the model are the `_fields` dumped from the live header classes on every run and proved (decide) "
+    "equal to the gABI structures in the byte order announced by EI_DATA. The hand model is tied to the source by a byte-for-byte differential "
+    "run against write_elf on real compiled / linked objects of all five machines, and the property itself is evaluated on every real file with "
+    "the Lean gABI reader, GNU readelf and llvm-readelf."
 )
 LEVEL_NOTE = (
-    "trusted: Lean kernel; axioms propext/Classical.choice/Quot.sound; Spec.Elf (reader written from the gABI; validated against GNU readelf's "
-    "parse of every file in the thorough tier); the hand model <-> source correspondence is sampled (byte equality on every generated file), not "
-    "proved; struct.pack/BytesIO.seek semantics as modelled. PARTIAL: the end-to-end composition `Spec.Elf.read (write obj) = view obj` for section, "
-    "symbol and relocation tables is proved as separate layers (record round trip + chunk placement + table ordering), not as one statement; it is "
-    "evaluated on every real file instead. Not covered: ET_DYN/dynamic section, debug sections, arch.get_reloc_type (arch code), readers other than "
-    "readelf/llvm-readelf/the Linux loader (pyelftools is not installed)."
+    "PARTIAL (shape P): the composition `Spec.Elf.read (write obj) = view obj` for the section, symbol and relocation TABLES (readSections / "
+    "readSymTabs / readRelaTabs succeed on the written file and return the object's tables) is stated (Props.C17.read_write_full) but not proved "
+    "as one theorem; only its layers are. It is evaluated on every real file instead. trusted: Lean kernel; axioms propext/Classical.choice/"
+    "Quot.sound; Spec.Elf (validated against GNU readelf's parse of every file in the thorough tier, a sample in quick); the hand model <-> source "
+    "correspondence is sampled (byte equality on every generated file), not proved; struct.pack / BytesIO seek-tell semantics as modelled. Not "
+    "covered: ET_DYN/dynamic section, debug sections, arch.get_reloc_type (arch code; its result is an input), readers other than "
+    "readelf / llvm-readelf / the Linux loader (pyelftools is not installed). Two open findings: relocatable files with relocations cannot be "
+    "written for the four non-x86 machines (NotImplementedError) nor for x86_64 relocation types missing from elf_reloc_mapping (KeyError)."
 )
 TECHNIQUE = ("Lean 4 proof (induction over field lists / symbol lists / the writer's append-only file) about a hand model + table translation "
              "(header _fields dumped from live classes, decide) + byte-exact differential correspondence + independent readers (Lean gABI reader, readelf)")
@@ -156,7 +162,7 @@ def ident(rng, prefix):
     return prefix + "".join(rng.choice("abcdefghxyz_0123456789") for _ in range(rng.randint(1, 6)))
 
 
-def gen_c(rng, externs):
+def gen_c(rng, externs, arch=None):
     """small C translation unit: globals (data), statics (local symbols), functions, optionally extern references"""
     ng, ns, nf = rng.randint(0, 3), rng.randint(0, 2), rng.randint(1, 3)
     lines = []
@@ -171,7 +177,7 @@ def gen_c(rng, externs):
         ext_f = [f"xf{i}" for i in range(rng.randint(0, 2))]
         ext_v = [f"xv{i}" for i in range(rng.randint(0, 2))]
         lines += [f"int {f}(int);" for f in ext_f] + [f"extern int {v};" for v in ext_v]
-    if rng.random() < 0.5:
+    if rng.random() < 0.5 and arch != "microblaze":      # (ppci's microblaze back-end cannot emit pointer initialisers)
         lines.append(f"int *gp{rng.randint(0, 9)} = &{gl[0]};" if gl else "char msg[] = \"hi\";")
     prev = []
     for i in range(nf):
@@ -179,7 +185,7 @@ def gen_c(rng, externs):
         name = f"{'sf' if static else 'f'}{i}"
         terms = ["a", str(rng.randint(1, 50))] + rng.sample(gl + st + ext_v, min(len(gl + st + ext_v), rng.randint(0, 2)))
         terms += [f"{p}(a)" for p in rng.sample(prev + ext_f, min(len(prev + ext_f), rng.randint(0, 2)))]
-        body = f" {rng.choice('+-*')} ".join(terms)
+        body = f" {rng.choice('+-*' if externs else '+-')} ".join(terms)   # '*' needs a runtime library on some targets when linked
         if rng.random() < 0.3:
             body = f"(a > {rng.randint(0, 9)}) ? ({body}) : {rng.randint(0, 9)}"
         lines.append(f"{'static ' if static else ''}int {name}(int a) {{ return {body}; }}")
@@ -384,16 +390,16 @@ def build_cases(ctx):
     ncorpus = len(cases)
 
     # ---------------- generated ----------------
-    per_arch = 14 if ctx.thorough else 2
+    per_arch = 10 if ctx.thorough else 2
     for arch in ARCHES:
         for k in range(per_arch):
             # C: relocatable with externs, executable without
-            src, funcs = gen_c(rng, externs=True)
+            src, funcs = gen_c(rng, externs=True, arch=arch)
             try:
                 add(f"gen:c-rel:{arch}:{k}", arch, cc(src, arch), "relocatable")
             except Exception as e:  # the C generator produced something the front-end rejects: not this property's business
                 ctx.count("gen_cc_rejected")
-            src, funcs = gen_c(rng, externs=False)
+            src, funcs = gen_c(rng, externs=False, arch=arch)
             try:
                 o = cc(src, arch)
                 secs = [s.name for s in o.sections]
